@@ -88,6 +88,11 @@ def tasks(tier):
         cfg = dict(M=M, alphabet=["ok", "xg:T", "xg:P", "x:T", "r:T"], max_unknown=None,
                    handler="call" if "deco" not in e else "policy", sleeper="call" if "deco" not in e else "policy")
         out.append({"family": "surface-exception-group", "cfg": cfg, "entry": e, "bound": 1})
+    # the attempt raises a nested policy's RetryExhaustedError (with and without a last_exception)
+    for M, e in itertools.product([1, 2, 3], ENTRIES + ["deco", "adeco"]):
+        cfg = dict(M=M, alphabet=["ok", "nested+exc", "nested", "x:T", "r:T"], max_unknown=None,
+                   sleeper="call" if "deco" not in e else "policy")
+        out.append({"family": "surface-nested-exhausted", "cfg": cfg, "entry": e, "bound": 0})
     # async: the successful attempt's return value is itself an awaitable object (a handle the
     # caller wants back, e.g. a Task or a lazy response): it is returned, not awaited
     for M, rcf, e in itertools.product([1, 2, 3], [False, True],
